@@ -40,6 +40,8 @@ def norm(name):
 class Summaries:
     def __init__(self, ex):
         self.ex = ex
+        from e2.strmodel import StrSummaries
+        self.strs = StrSummaries(self)
 
     # ------------------------------------------------------------ helpers
     def variant_of(self, st, v, what="enum"):
@@ -139,6 +141,12 @@ class Summaries:
         n = norm(name)
         ex.summaries_used.add(n)
         A = args
+
+        # ---------- modelled texts (symbolic character sequences) take precedence over the opaque string summaries
+        from e2.strmodel import NotHandled
+        r = self.strs.call(st, fr, n, name, A)
+        if r is not NotHandled:
+            return r
 
         # ---------- ? operator plumbing
         m = re.match(r"^<(Result|Option)<.*> as Try>::branch$", n) or re.match(r"^<(std::result::Result|std::option::Option)<.*> as Try>::branch$", n)
@@ -522,6 +530,9 @@ class Summaries:
             if good:
                 return val
             inner = targs[0]
+            mt = re.match(r"^(?:std::option::)?Option::<(.*)>::unwrap_or_default$", name.strip())
+            if mt and (inner == "?" or ex.tc.kind(inner)[0] == "opaque"):
+                inner = mt.group(1)
             return self.default_of(st, inner)
         if meth == "unwrap_or_else":
             if good:
@@ -1102,16 +1113,16 @@ class Summaries:
                 return self.option(m.group(1))
             rg.fields[0] = Int(s0.t + 1, s0.bits, s0.signed)
             return self.option(m.group(1), s0)
-        m = re.match(r"^<(?:std::ops::)?Range<(isize|usize)> as (IntoIterator|Clone|From<.*>)>::(into_iter|clone|from)$", n)
+        m = re.match(r"^<(?:std::ops::)?Range<(isize|usize|i32|u32)> as (IntoIterator|Clone|From<.*>)>::(into_iter|clone|from)$", n)
         if m:
             return clone_val(self.deref_val(st, A[0]))
-        m = re.match(r"^<(?:std::ops::)?Range<(isize|usize)> as (?:Iterator|DoubleEndedIterator)>::rev$", n)
+        m = re.match(r"^<(?:std::ops::)?Range<(isize|usize|i32|u32)> as (?:Iterator|DoubleEndedIterator)>::rev$", n)
         if m:
             return Struct("Rev", {0: A[0]})
-        m = re.match(r"^<Rev<(?:std::ops::)?Range<(isize|usize)>> as IntoIterator>::into_iter$", n)
+        m = re.match(r"^<Rev<(?:std::ops::)?Range<(isize|usize|i32|u32)>> as IntoIterator>::into_iter$", n)
         if m:
             return A[0]
-        m = re.match(r"^<Rev<(?:std::ops::)?Range<(isize|usize)>> as Iterator>::next$", n)
+        m = re.match(r"^<Rev<(?:std::ops::)?Range<(isize|usize|i32|u32)>> as Iterator>::next$", n)
         if m:
             rv = self.deref_val(st, A[0])
             rg = rv.fields[0]
